@@ -383,4 +383,55 @@ def aggPercentile (p : Nat) (es : List AEv) : Option Int :=
 /-- `calculate_std_dev` answers `None` with fewer than two numeric values (its value is not modelled) -/
 def aggStdDevDefined (es : List AEv) : Bool := decide (2 ≤ (avals es).length)
 
+/-! ### min / max / sum over the extended reals (`XV` cases)
+
+`Value::Number` may hold any f64: `±inf`, NaN, `±f64::MAX`. `XNum` is that ordered type (`ninf < lo < fin i < hi < pinf`,
+`lo`/`hi` = `∓f64::MAX`; `nan` unordered). `TimeWindow::min`/`max` fold with `f64::min`/`f64::max` from `None`
+(`None => Some(x)`, `Some(m) => Some(m.min(x))`); `f64::min(a, b)` returns the other argument when one is NaN. -/
+
+inductive XNum where
+  | ninf | lo | fin (i : Int) | hi | pinf | nan
+deriving Repr, DecidableEq
+
+/-- position in the order of the non-NaN values: (tier, value) compared lexicographically -/
+def XNum.key : XNum → Int × Int
+  | .ninf => (-2, 0) | .lo => (-1, 0) | .fin i => (0, i) | .hi => (1, 0) | .pinf => (2, 0) | .nan => (3, 0)
+
+/-- `a <= b` for non-NaN values -/
+def XNum.le (a b : XNum) : Bool := decide (a.key.1 < b.key.1) || (decide (a.key.1 = b.key.1) && decide (a.key.2 ≤ b.key.2))
+
+/-- `f64::min` -/
+def XNum.fmin : XNum → XNum → XNum
+  | .nan, b => b
+  | a, .nan => a
+  | a, b => if a.le b then a else b
+
+/-- `f64::max` -/
+def XNum.fmax : XNum → XNum → XNum
+  | .nan, b => b
+  | a, .nan => a
+  | a, b => if a.le b then b else a
+
+def xFold (op : XNum → XNum → XNum) : Option XNum → XNum → Option XNum
+  | none, x => some x
+  | some m, x => some (op m x)
+
+/-- `TimeWindow::min` over the numeric values of the window (`none` entries = non-numeric / missing field) -/
+def xMin (vs : List (Option XNum)) : Option XNum := (vs.filterMap id).foldl (xFold XNum.fmin) none
+/-- `TimeWindow::max` -/
+def xMax (vs : List (Option XNum)) : Option XNum := (vs.filterMap id).foldl (xFold XNum.fmax) none
+
+/-- is the f64 sum independent of the order of addition (and therefore comparable)? Not with NaN payloads or
+`±f64::MAX` (overflow to infinity depends on the order) among the values. -/
+def xSumComparable (vs : List (Option XNum)) : Bool :=
+  (vs.filterMap id).all fun x => x != .nan && x != .lo && x != .hi
+
+/-- `TimeWindow::sum` for comparable value lists: `inf + -inf = NaN`, an infinity absorbs every finite value -/
+def xSum (vs : List (Option XNum)) : XNum :=
+  let v := vs.filterMap id
+  if v.contains .pinf && v.contains .ninf then .nan
+  else if v.contains .pinf then .pinf
+  else if v.contains .ninf then .ninf
+  else .fin ((v.filterMap fun x => match x with | .fin i => some i | _ => none).foldl (· + ·) 0)
+
 end C12
